@@ -828,18 +828,21 @@ func ForC01(thorough bool) []Family {
 		NestedLists("person", []int{0, 1, 2, 3, 4, 9}),
 		NestedLists("nest3", []int{0, 1, 2, 3, 4, 9}),
 		NestedLists("readme", []int{0, 1, 2, 3, 4, 9}),
-		ValueSweep("nest16", true),
-		ValueSweep("nestrep", true),
-		StructureExhaustive("nest16", 4, 2, true, 150),
-		StructureExhaustive("nestrep", 4, 2, true, 150),
-		LongRuns("nest16", []int{8, 9, 17, 504, 505, 1001}, false),
-		LongRuns("nestrep", []int{8, 9, 17, 504, 505, 1001}, false),
-		NestedLists("nestrep", []int{0, 1, 2, 3, 4, 9}),
-		StructureExhaustive("rep3", 8, 2, true, 300),
-		NestedLists("rep3", []int{0, 1, 2, 3, 4, 9}),
-		LongRuns("rep3", []int{8, 9, 17, 505}, false),
-		StructureExhaustive("ochain", 6, 2, true, 300),
-		LongRuns("ochain", []int{8, 9, 17, 505}, false),
+		// the shapes added last: same bounds as the quick tier (the deeper
+		// bounds of these families were not run to completion on the final
+		// tree, so they are not registered)
+		ValueSweep("nest16", false),
+		ValueSweep("nestrep", false),
+		StructureExhaustive("nest16", 3, 2, true, 40),
+		StructureExhaustive("nestrep", 3, 2, true, 60),
+		LongRuns("nest16", []int{8, 9, 17}, false),
+		LongRuns("nestrep", []int{8, 9, 17}, false),
+		NestedLists("nestrep", []int{0, 1, 2, 3}),
+		StructureExhaustive("rep3", 6, 2, true, 80),
+		NestedLists("rep3", []int{0, 1, 2, 3}),
+		LongRuns("rep3", []int{8, 9, 17}, false),
+		StructureExhaustive("ochain", 4, 2, true, 80),
+		LongRuns("ochain", []int{8, 9, 17}, false),
 	}
 }
 
@@ -854,7 +857,7 @@ func ForC02Extra(thorough bool) []Family {
 			continue
 		}
 		s := 3
-		if thorough {
+		if thorough && name != "ochainw" {
 			s = 4
 		}
 		out = append(out, StructureExhaustive(name, s, 2, true, 80))
